@@ -18,11 +18,11 @@ CHECKS = {
    note=SEQ_NOTE),
  "C02": dict(engine="seq", cat="model_checking", ref="§4 C02, §2.3",
    technique="explicit-state BFS over CAS histories on the real code with a token-uniqueness/iff oracle",
-   text="All histories up to the bound of stores/RMW/deletes with CAS in {0,current,stale1,stale2,current+1,MAX,arbitrary} on 2 keys incl. expiry and re-creation; oracle: succeeds iff CAS matches, failure = 0x02 and bit-identical entry, new token non-zero, never carried before in the lifetime, and equal to what the store then holds. A second configuration runs CAS-carrying stores that also carry a TTL on a server whose clock is at 100 s. A third starts from non-initial states: 7..257 earlier stores (every power of two and its neighbours, 10, 100) on the guarded key and on another one, every step of the walk judged, then BFS from its end. Per configuration a history-exhaustive second pass executes every history up to the depth that |alphabet|^d <= 1.5 M (thorough 40 M) allows without state matching (state kept outside the store cannot hide behind equal dumps).",
+   text="All histories up to the bound of stores/RMW/deletes with CAS in {0,current,stale1,stale2,current+1,MAX,arbitrary} on 2 keys incl. expiry and re-creation; oracle: succeeds iff CAS matches, failure = 0x02 and bit-identical entry, new token non-zero, never carried before in the lifetime, and equal to what the store then holds. A second configuration runs CAS-carrying stores that also carry a TTL on a server whose clock is at 100 s. A third starts from non-initial states: 7..257 earlier stores (every power of two and its neighbours, 10, 100) on the guarded key and on another one, every step of the walk judged, then BFS from its end. The alphabet contains the quiet forms of the guarded commands (setq/replaceq/appendq/incrq/deleteq with a stale CAS, replaceq with the current one, addq on a present key): a failed guard is reported, only success is silent. Per configuration a history-exhaustive second pass executes every history up to the depth that |alphabet|^d <= 1.5 M (thorough 40 M) allows without state matching (state kept outside the store cannot hide behind equal dumps).",
    note=SEQ_NOTE),
  "C05": dict(engine="seq+sched", cat="model_checking", ref="§4 C05, §2.3",
    technique="explicit-state BFS over TTL/clock/flush histories on the real code under an injected Timer, must-hit/must-miss window oracle",
-   text="All histories up to the bound over TTL {0,1,2,3,30d}, relative clock steps incl. exactly-to-expiry and one-second-before, delayed and immediate flush, every command kind on live/just-expired/long-expired items; oracle: must-hit before s+TTL, must-miss from last-mutation+TTL, expired = absent for every command, never visible again, nothing prolongs (also checked on the dump after every command). Second part (E1): every presence-dependent command against concurrent get(s) on an expired, not yet collected item, every schedule, linearizability (expired = absent). Per configuration a history-exhaustive second pass executes every history up to the depth that |alphabet|^d <= 1.5 M (thorough 40 M) allows without state matching (state kept outside the store cannot hide behind equal dumps).",
+   text="All histories up to the bound over TTL {0,1,2,3,30d}, relative clock steps incl. exactly-to-expiry and one-second-before, delayed and immediate flush, every command kind on live/just-expired/long-expired items; oracle: must-hit before s+TTL, must-miss from last-mutation+TTL, expired = absent for every command, never visible again, nothing prolongs (also checked on the dump after every command). Second part (E1): every presence-dependent command against concurrent get(s) on an expired, not yet collected item, every schedule, linearizability (expired = absent). Family ttl-store-vs-cmd-then-time-passes: set/add with a TTL against flush, delayed flush, get, delete, set, append, incr or a store on another key (absent and present), every schedule; after the race the clock moves on 5 s and every key is read: a record past its own timestamp + TTL is never returned. Per configuration a history-exhaustive second pass executes every history up to the depth that |alphabet|^d <= 1.5 M (thorough 40 M) allows without state matching (state kept outside the store cannot hide behind equal dumps).",
    note=SEQ_NOTE),
  "C06": dict(engine="seq", cat="model_checking", ref="§4 C06, §2.3",
    technique="explicit-state BFS over add/replace/append/prepend histories on the real code against the reference model",
@@ -61,7 +61,7 @@ CHECKS.update({
    note=SEQ_NOTE),
  "C16": dict(engine="sched+seq", cat="model_checking", ref="§4 C16, §2.2",
    technique="stateless DFS over all thread schedules of the real store under a controlled scheduler with deadlock (no enabled task) and step-horizon (livelock) detection",
-   text="Programs of 1-3 clients over {get,set,cas-set,delete,add,append,incr,flush,other-key ops, evicting stores} with keys on the same and on different shards (2 shards), policies none and random with a tight limit (eviction sweeps, all victims), initial states absent/present/expired: every schedule up to the bound must run to completion; a blocked system or >20000 steps is a violation. Family refused-then-again: a refused command (stale CAS) followed by the same kind of command on one client and across two. Sequential part (E2): one client repeating each command 300 (thorough 3000) times on an absent, a present and an expired-uncollected key, and set/expire/read cycles; every step must return (30 s watchdog).",
+   text="Programs of 1-3 clients over {get,set,cas-set,delete,add,append,incr,flush,other-key ops, evicting stores} with keys on the same and on different shards (2 shards), policies none and random with a tight limit (eviction sweeps, all victims), initial states absent/present/expired: every schedule up to the bound must run to completion; a blocked system or >20000 steps is a violation. Family refused-then-again: a refused command (stale CAS) followed by the same kind of command on one client and across two. Sequential part (E2): one client repeating each command 300 (thorough 3000) times on an absent, a present and an expired-uncollected key, and set/expire/read cycles; every step must return (30 s watchdog). The scheduler is fair: a task that takes 2000 scheduling points in a row while another client can run is made to yield (no preemption cost, no branch), so a client waiting in a spin loop for one that would finish is not reported; spinning on after the others have finished still exhausts the step horizon.",
    note=SCHED_NOTE),
 })
 
@@ -76,7 +76,7 @@ CHECKS.update({
    note=NET_NOTE),
  "C12": dict(engine="net", cat="model_checking", ref="§4 C12, §2.5",
    technique="exhaustive enumeration of pipelined request streams over all opcodes (depth 2, thorough 3, quit/quitq at every position) on real loopback TCP, validated by the sequential specification",
-   text="Every stream of 1-2 (thorough 3) requests over a 48-element alphabet (incl. oversized set/setq, also delivered in three pieces cut inside the body) (every opcode 0x00-0x24 with hit/miss and success/error operands, loud/quiet, unimplemented, undefined) plus every stream with quit/quitq in the middle, sent in one segment and byte-at-a-time; responses are matched by opaque in order: exactly one per loud known opcode, quiet only on error/hit, quit answered then EOF, quitq EOF without answer, nothing after either executed (final store compared), not even on the next connection (a fresh connection after every stream: one noop, exactly one answer). Third delivery mode: one segment followed at once by the client FIN (everything sent is still executed and answered). Late-reader scenarios: pipelined gets of 64-256 KiB then quit or the client's FIN, first read after the server ran: every response whole, then a clean end of stream (no reset). Reset mode: every stream [<a>] quit|quitq <b> on an established connection that the client resets before the server runs (the server reads every byte, its writes and shutdown fail): the store ends as before the stream or as after <a>.",
+   text="Every stream of 1-2 (thorough 3) requests over a 48-element alphabet (incl. oversized set/setq, also delivered in three pieces cut inside the body) (every opcode 0x00-0x24 with hit/miss and success/error operands, loud/quiet, unimplemented, undefined) plus every stream with quit/quitq in the middle, sent in one segment and byte-at-a-time; responses are matched by opaque in order: exactly one per loud known opcode, quiet only on error/hit, quit answered then EOF, quitq EOF without answer, nothing after either executed (final store compared), not even on the next connection (a fresh connection after every stream: one noop, exactly one answer). Third delivery mode: one segment followed at once by the client FIN (everything sent is still executed and answered). Late-reader scenarios: pipelined gets of 64-256 KiB then quit or the client's FIN, first read after the server ran: every response whole, then a clean end of stream (no reset). Reset mode: every stream [<a>] quit|quitq <b> on an established connection that the client resets before the server runs (the server reads every byte, its writes and shutdown fail): the store ends as before the stream or as after <a>. Long pipelines: 130 / 300 / 1100 / 70000 (thorough up to 140000) loud noops, and as many quiet sets followed by a get, each ending in quit, in one write: every loud request answered in order, the get sees the last quiet set, quit answered, end of stream.",
    note=NET_NOTE),
  "C13": dict(engine="net", cat="model_checking", ref="§4 C13, §2.5",
    technique="exhaustive grid limit x body length x opcode x pipeline position x bytes-already-buffered x buffer-pregrown on real loopback TCP against an in-process reference",
@@ -84,7 +84,7 @@ CHECKS.update({
    note=NET_NOTE),
  "C17": dict(engine="net", cat="fault_enumeration", ref="§4 C17, §2.5",
    technique="exhaustive enumeration of connection-lifecycle sequences (13 ending kinds, limits 1..4, length <= limit+2, two ending orders) against the real accept loop/semaphore on loopback TCP with virtual time",
-   text="13 ending kinds (client close, quit, quitq, close mid-request, bad magic, oversized item then close, idle timeout, abortive reset, stall inside a request until the timeout, stall inside an oversized body until the timeout, quit then hang up without reading, quit / quitq with the client keeping its socket open), plus queued clients that leave silently and connections reset before they were accepted. After every open/end event exactly min(open, limit) connections are served; after every history limit+1 fresh probes: exactly limit answered, the extra one as soon as a slot frees; accept loop alive (a refused connection is a violation). Plus: clients that queue silently behind a full limit for 0..150 s of virtual time while the holders stay active, then send their first request when a slot frees (must be served, in order). Plus: 2-4 accept loops sharing the one semaphore (as --threads N sets up): while fewer than limit connections are held, 16 fresh connections one after another are each served at once.",
+   text="13 ending kinds (client close, quit, quitq, close mid-request, bad magic, oversized item then close, idle timeout, abortive reset, stall inside a request until the timeout, stall inside an oversized body until the timeout, quit then hang up without reading, quit / quitq with the client keeping its socket open), plus queued clients that leave silently and connections reset before they were accepted. After every open/end event exactly min(open, limit) connections are served; after every history limit+1 fresh probes: exactly limit answered, the extra one as soon as a slot frees; accept loop alive (a refused connection is a violation). Plus: clients that queue silently behind a full limit for 0..150 s of virtual time while the holders stay active, then send their first request when a slot frees (must be served, in order). Plus: 2-4 accept loops sharing the one semaphore (as --threads N sets up): while fewer than limit connections are held, 16 fresh connections one after another are each served at once. Plus a crowd: 3*limit+6 and 40 clients (fewer than the listen backlog) connect at once for limits 1, 2, 4; exactly limit are served; each time the oldest served one leaves exactly the next in line is picked up. A connect the kernel does not complete within 1.5 s is reported as the server not accepting connections.",
    note=NET_NOTE),
  "C18": dict(engine="net", cat="fault_enumeration", ref="§4 C18, §2.5",
    technique="exhaustive enumeration of every cut offset of pipelined streams x 7 fault kinds on real loopback TCP with an observer connection, compared with in-process execution of the completed prefix",
@@ -103,11 +103,11 @@ CHECKS.update({
    note=SEQ_NOTE),
  "C19": dict(engine="seq-pair", cat="model_checking", ref="§4 C19, §2.3",
    technique="explicit-state BFS over pairs of real systems (loud run, toggled run); the loud/quiet toggle is part of the alphabet so every subset of positions is covered; every toggled history up to depth 2 (thorough 3) is also sent as pipelined writes to a real TCP server and compared with the in-process run",
-   text="All histories to the bound x every subset of positions switched to quiet: after every command both stores hold identical items (value, flags, expiry) with isomorphic CAS relations; errors identical apart from the opcode, quiet success and quiet get miss silent, quiet hit carries the same payload. TCP part: each clock-free segment of a toggled history is one write (its requests are pipelined in the server's read buffer); received bytes and final store must equal the in-process run of the same history. A second TCP mode sends the requests one at a time with 45 s of virtual idle time in front of each (below the receive timeout). The alphabet contains an oversized store; the TCP binding adds the tuples <any> <oversized> <any>.",
+   text="All histories to the bound x every subset of positions switched to quiet: after every command both stores hold identical items (value, flags, expiry) with isomorphic CAS relations; errors identical apart from the opcode, quiet success and quiet get miss silent, quiet hit carries the same payload. TCP part: each clock-free segment of a toggled history is one write (its requests are pipelined in the server's read buffer); received bytes and final store must equal the in-process run of the same history. A second TCP mode sends the requests one at a time with 45 s of virtual idle time in front of each (below the receive timeout). The alphabet contains oversized set / add / replace / append / prepend (their quiet twins through the toggle); the TCP binding adds the tuples <any> <oversized> <any>.",
    note=SEQ_NOTE),
  "C20": dict(engine="cfg", cat="exploration", ref="§4 C20, §2.6",
    technique="exhaustive configuration-grid enumeration: one real memcrsd process (built from /repo, hooks off) per CLI configuration, identical programs, transcript comparison",
-   text="Grid runtime-type x threads {1,2,8} x eviction x port x max-item-size x connection-limit (quick: covering subset of 8, thorough: all 96): byte-identical transcripts of the C01/C07 spanning-tree programs across configurations and agreement with the in-process run, item-size and connection limits enforced as configured (8 x limit simultaneous connections), a 1500-item population read back and flushed, one real-time TTL probe per configuration (ttl 4: hit at 0 s and 2.3 s, miss at 5.6 s). Second part: in-process differential BFS, eviction policy none vs random with an unreachable limit, every history of the C01 alphabet (incl. rejected CAS stores) to depth 5-6: byte-identical responses and equal stores. Connections ending in quit, quitq and a plain close precede the connection-limit probe. The in-process differential runs over the first alphabets of C01, C02, C06, C07 and C08. Per configuration six rounds of <connection ending with unconsumed bytes: behind quit, behind quitq, a cut-short set> + <fresh connection: get, noop> (nothing of one connection reaches the next, whichever runtime thread sets it up).",
+   text="Grid runtime-type x threads {1,2,8} x eviction x port x max-item-size x connection-limit (quick: covering subset of 8, thorough: all 96): byte-identical transcripts of the C01/C07 spanning-tree programs across configurations and agreement with the in-process run, item-size and connection limits enforced as configured (8 x limit simultaneous connections), a 1500-item population read back and flushed, one real-time TTL probe per configuration (ttl 4: hit at 0 s and 2.3 s, miss at 5.6 s). Second part: in-process differential BFS, eviction policy none vs random with an unreachable limit, every history of the C01 alphabet (incl. rejected CAS stores) to depth 5-6: byte-identical responses and equal stores. Connections ending in quit, quitq and a plain close precede the connection-limit probe. The in-process differential runs over the first alphabets of C01, C02, C06, C07 and C08. Per configuration six rounds of <connection ending with unconsumed bytes: behind quit, behind quitq, a cut-short set> + <fresh connection: get, noop> (nothing of one connection reaches the next, whichever runtime thread sets it up). The item-limit probe also runs pipelined: set, set of limit+1 bytes, set, get, noop in one write - the requests behind the refused one are answered under every configured limit.",
    note="Trusted: timing enters only as patience (5 s for positive, 300 ms for negative expectations); ./run builds the real memcrsd binary from /repo's working tree (verification feature off) into /verif/mc/target/memcrsd and every configuration is that binary with its CLI arguments; `mc serve` (the statements of memcrsd's main) is only the fallback when MEMCRSD_BIN is unset, and the evidence records which one ran."),
 })
 
